@@ -48,8 +48,8 @@ if __name__ == "__main__":
     sec += ("\n### 13.3 The model files as they are now (supersedes the list of 35 in section 6)\n\n"
             f"{len(mods)} files under `lean/RichModel/Model/`, all importing nothing outside `RichModel.Model` / `RichModel.Gen` (each native driver links without Mathlib); "
             "`RichModel/AllModels.lean` imports all of them at once and builds, so no two models declare the same name.  Files added by the third session: "
-            "Lru, SegmentExtra (C13); TextStr, TextFrag (C05); PrettyConsole (C16); TableRows (C07); AnsiPrint (C03); ProgressFmt (C12); SyntaxTrace (C17); "
-            "ConsoleFormat, ConsoleLogTime (C15); FramesBarsStyled (C08); StyleCtor (C06); MarkupHL (C04); TermStyle, LiveCrop (C10) and those named in the table of 13.1.\n\n"
+            "Lru, SegmentExtra (C13); TextStr, TextFrag, TextTabs (C05 / C02); PrettyConsole (C16); TableRows (C07); AnsiPrint (C03); ProgressFmt (C12); SyntaxTrace (C17); "
+            "ConsoleFormat, ConsoleLogTime (C15); FramesBarsStyled (C08); StyleCtor (C06); MarkupHL (C04); TermStyle, LiveCrop (C10); ThemeCtx (C20); ColorMore (C18); AnsiParams, AnsiProxyApi (C19); TotalityTitle (C14).\n\n"
             "| model file | lines | imports (Model / Gen) |\n|---|---|---|\n" + "\n".join(mods) + "\n")
     sec = sec.replace("@@ROWS@@", rows).replace("@@FINDINGS@@", "\n".join(FINDINGS)).replace("@@SEEDED@@", seeded)
     p = os.path.join(V, "DESIGN.md"); s = open(p).read()
